@@ -65,7 +65,7 @@ def run(ctx):
             ops = ["row_slice", "row_slice", "row_mask", "row_fancy", "col_slice", "col_reverse", "eq_char", "copy", "ravel", "concat", "tolist", "assign_row", "assign_elem", "neq_char",
                    "str_equal_ragged", "str_equal_str", "as_string_array", "view_copy_assign", "view_copy_assign", "concat_assign", "eq_ragged_other_enc", "rows_to_array_assign"]
             if n:
-                ops += ["row_int", "row_int", "elem"]
+                ops += ["row_int", "row_int", "elem", "row_int_col_slice"]
             if n and min(lens) > 0:
                 ops += ["col_int", "assign_col", "col_fancy"]
             op = r.choice(ops)
@@ -74,11 +74,14 @@ def run(ctx):
             if op == "row_slice":
                 return op, {"start": r.choice([None, r.randint(-n - 1, n + 1)]), "stop": r.choice([None, r.randint(-n - 1, n + 1)]), "step": r.choice([None, 1, 2, -1, -2])}
             if op == "row_mask":
-                return op, {"mask": [r.random() < 0.5 for _ in range(n)]}
+                return op, {"mask": [r.random() < 0.5 for _ in range(n)], "as_list": r.random() < 0.3}
             if op == "row_fancy":
-                return op, {"idx": [r.randint(-n, n - 1) for _ in range(r.randint(0, 4))] if n else []}
+                return op, {"idx": [r.randint(-n, n - 1) for _ in range(r.randint(0, 4))] if n else [], "as_list": r.random() < 0.3}
+            if op == "row_int_col_slice":
+                i = r.randint(-n, n - 1)
+                return op, {"i": i, "start": r.choice([None, 0, 1, 2, -1, -2]), "stop": r.choice([None, 1, 2, 3, -1]), "step": r.choice([None, 1, -1, -1, 2])}
             if op == "col_slice":
-                return op, {"start": r.choice([None, 0, 1, 2, -1, -2]), "stop": r.choice([None, 1, 2, 3, -1]), "step": None}
+                return op, {"start": r.choice([None, 0, 1, 2, -1, -2, 5]), "stop": r.choice([None, 0, 1, 2, 3, -1, -3]), "step": r.choice([None, None, 1, 2, -1, -1, -2])}
             if op == "col_reverse":
                 return op, {}
             if op == "col_int":
@@ -229,6 +232,8 @@ def run(ctx):
                 return "ragged", [s for s, m in zip(model, p["mask"]) if m]
             if op == "row_fancy":
                 return "ragged", [model[i] for i in p["idx"]]
+            if op == "row_int_col_slice":
+                return "flat", model[p["i"]][slice(p["start"], p["stop"], p["step"])]
             if op == "col_slice":
                 return "ragged", [s[slice(p["start"], p["stop"], p["step"])] for s in model]
             if op == "col_reverse":
@@ -357,9 +362,11 @@ def run(ctx):
             if op == "row_slice":
                 return obj[slice(p["start"], p["stop"], p["step"])]
             if op == "row_mask":
-                return obj[np.array(p["mask"], dtype=bool)]
+                return obj[list(p["mask"]) if (p.get("as_list") and p["mask"]) else np.array(p["mask"], dtype=bool)]
             if op == "row_fancy":
-                return obj[np.array(p["idx"], dtype=int)]
+                return obj[list(p["idx"]) if (p.get("as_list") and p["idx"]) else np.array(p["idx"], dtype=int)]
+            if op == "row_int_col_slice":
+                return obj[p["i"], slice(p["start"], p["stop"], p["step"])]
             if op == "col_slice":
                 return obj[:, slice(p["start"], p["stop"], p["step"])]
             if op == "col_reverse":
